@@ -230,15 +230,18 @@ CLAIMS["C11"] = dict(
 
 CLAIMS["C17"] = dict(
     category="other",
-    text=("Decides the structural contract of ScalarRootFind: the guess is clipped into the bracket before any use, NaN seeding on a "
-          "missing sign change precedes the end-point overrides (so an end-point root is returned), each step reads the previous "
-          "guess; f(bracket[k]) == 0 selects bracket[k] and sets converged; orientation and bracket maintenance share one sign "
-          "convention; the bisection step is the bracket midpoint, the Newton step x - f/f' and Newton is rejected by the product "
-          "test when it leaves the bracket; the while-loop carry has one order everywhere; the result is NaN unless converged; "
-          "find_root is custom_root(f, x0, rtsafe_ on the same bracket/settings, y/g(1)); get_settings fills Settings fields by name. That the returned value meets the "
-          "tolerance and lies in the bracket for every function is trajectory dependent and NOT decided."),
-    design_ref="DESIGN.md section 4, C17",
-    technique="static analysis: ordering via reaching definitions/dominators, pairing and sign-convention sibling rules, slot-table agreement, algebraic normal forms")
+    text=("Decides by symbolic interpretation of ScalarRootFind.rtsafe_ (opaque user function f@x with derivative df@x, comparisons decided at "
+          "one rational sample per situation, values kept symbolic and compared exactly): the initial while-loop carry in 10 situations (sign change "
+          "either way round, guess inside / below / above the bracket, no sign change, either end point an exact root): the iteration starts from the "
+          "guess clipped into the bracket, from NaN without a sign change, from an end point that is a root (with converged set), and the bracket is "
+          "oriented so that its first end is where f < 0; one loop step in 9 situations (Newton admissible, leaving the bracket, converging too slowly, "
+          "decreasing function, residual / step below tolerance, stagnating bisection and Newton steps with zero tolerances): new iterate = x - f/f' or the "
+          "midpoint, step, bracket maintenance consistent with the orientation, residual slot = f(new iterate), counter + 1, convergence flag = stagnation | "
+          "|dx| < x_tol | |F| < r_tol; the loop guard; the returned root is the loop's iterate masked by the loop's flag (NaN otherwise) and "
+          "SolutionInfo.converged is that flag; find_root is custom_root(f, x0, rtsafe_ on the same bracket/settings, y/g(1)); get_settings fills Settings "
+          "fields by name. That the iteration reaches the tolerance and stays in the bracket for every function is trajectory dependent and NOT decided."),
+    design_ref="DESIGN.md section 4, C17; section 11.8",
+    technique="static analysis: abstract interpretation of the source on symbolic values with situation (region) sampling for branch decisions, exact rational identities, custom_root protocol and named-field wiring rules")
 
 CLAIMS["C16"] = dict(
     category="other",
@@ -284,7 +287,7 @@ CLAIMS["C10"] = dict(
           "differentiates the same scalar function as the primal; safe_sqrt's rule is v*(0 if x<=0 else 0.5/safe_sqrt(x)); the "
           "closed-form helpers autodiff differentiates through satisfy their identities; find_root is custom_root with tangent solve "
           "y/g(1); stress outputs are value_and_grad(L, k) with k the position of the displacement gradient in all three mechanics "
-          "factories; the flow stress is grad of the hardening energy w.r.t. the plastic strain, the plastic residual is the "
+          "factories; ScalarRootFind.get_settings fills its fields by name; the flow stress is grad of the hardening energy w.r.t. the plastic strain, the plastic residual is the "
           "derivative of the incremental potential w.r.t. eqps, the element stiffness is the Hessian w.r.t. the element nodal field, "
           "and J2's hardening tuple slots match HardeningModel; no function in the call cone of any material energy density or "
           "mechanics factory (226 scopes) calls stop_gradient or carries a hand-written derivative rule other than the verified ones. Agreement of delivered derivatives with finite differences is "
